@@ -20,7 +20,7 @@ Open Scope Z_scope.
 Definition C03_statement : Prop := forall o s1 s2 h1 h2, is_fit o = true ->
   out (run s1 (h1 ++ [o])) = out (run s2 (h2 ++ [o])).
 
-(* As coded it fails in two ways, both replayed on the implementation by harness/c03.py.
+(* As coded it fails in three ways, all replayed on the implementation by harness/c03.py.
    (1) The hourly model WITHOUT a seed (the default: settings.seed = None) takes its seed from numpy's global generator;
        the property text excludes this case ("the same seed for the hourly model"), the witness shows the hypothesis
        [seeded] below is needed. *)
@@ -40,6 +40,12 @@ Theorem C03_caltrack_depends_on_thread_count_refuted :
 Proof. exists 1, 8, (FitCalTrack 1). split; [reflexivity|]. vm_compute. discriminate. Qed.
 Print Assumptions C03_caltrack_depends_on_thread_count_refuted.
 
+(* (3) ... and the hash salt of the interpreter (known finding C03-K2): two fresh single-threaded processes, PYTHONHASHSEED 0 and 1 *)
+Theorem C03_caltrack_depends_on_hash_salt_refuted :
+  exists k1 k2 o, seeded o = true /\ out (run (init_full 1 1 [] k1) [o]) <> out (run (init_full 2 1 [] k2) [o]).
+Proof. exists 0, 1, (FitCalTrack 1). split; [reflexivity|]. vm_compute. discriminate. Qed.
+Print Assumptions C03_caltrack_depends_on_hash_salt_refuted.
+
 Theorem C03_statement_refuted : ~ C03_statement.
 Proof.
   intros H. specialize (H (FitCalTrack 1) (init 1 1) (init 2 8) [] [] eq_refl). vm_compute in H. discriminate.
@@ -56,9 +62,9 @@ Theorem C03_fit_history_independent_partial : forall o s1 s2 h1 h2, seeded o = t
 Proof. exact history_independent. Qed.
 Print Assumptions C03_fit_history_independent_partial.
 
-(* CalTRACK hourly as well, between processes with the same pool size *)
+(* CalTRACK hourly as well, between processes with the same pool size and the same hash salt *)
 Theorem C03_fit_history_independent_same_pool_partial : forall o s1 s2 h1 h2, seeded o = true ->
-  g_threads s1 = g_threads s2 -> out (run s1 (h1 ++ [o])) = out (run s2 (h2 ++ [o])).
+  ct_env s1 = ct_env s2 -> out (run s1 (h1 ++ [o])) = out (run s2 (h2 ++ [o])).
 Proof. exact history_independent_same_pool. Qed.
 Print Assumptions C03_fit_history_independent_same_pool_partial.
 
@@ -71,13 +77,13 @@ Print Assumptions C03_fit_history_independent_any_engine.
 
 (* the order in which a batch of meters is fitted permutes the results and changes none *)
 Theorem C03_batch_order_irrelevant : forall h1 h2 s1 s2, Permutation h1 h2 -> forallb seeded h1 = true ->
-  g_threads s1 = g_threads s2 -> Permutation (snd (run s1 h1)) (snd (run s2 h2)).
+  ct_env s1 = ct_env s2 -> Permutation (snd (run s1 h1)) (snd (run s2 h2)).
 Proof. exact batch_order. Qed.
 Print Assumptions C03_batch_order_irrelevant.
 
 (* the prediction of a freshly fitted model, after any history of the process *)
 Theorem C03_prediction_history_independent : forall o p t h, seeded o = true ->
-  out (run (init p t) (h ++ [o; Predict (List.length h)])) = RPredict (pure_out t o).
+  out (run (init p t) (h ++ [o; Predict (List.length h)])) = RPredict (pure_out (ct_env (init p t)) o).
 Proof. exact predict_after_history. Qed.
 Print Assumptions C03_prediction_history_independent.
 
@@ -142,6 +148,13 @@ Theorem C03_fit_independent_of_jit_cache : forall o p1 p2 t1 t2 c1 c2 h1 h2, see
 Proof. intros. apply history_independent; assumption. Qed.
 Print Assumptions C03_fit_independent_of_jit_cache.
 
+(* the hash salt of the interpreter is process state a fit may not read: same result under any two salts (the model may say
+   so, for every family but CalTRACK hourly, because of C03_no_hash_order_reaches_an_ordered_structure_partial below) *)
+Theorem C03_fit_independent_of_hash_salt : forall o p1 p2 t1 t2 c1 c2 k1 k2 h1 h2, seeded o = true -> thread_sensitive o = false ->
+  out (run (init_full p1 t1 c1 k1) (h1 ++ [o])) = out (run (init_full p2 t2 c2 k2) (h2 ++ [o])).
+Proof. intros. apply history_independent; assumption. Qed.
+Print Assumptions C03_fit_independent_of_hash_salt.
+
 (* global state: a seeded fit does not move numpy's global generator; nothing ever writes the shared default list *)
 Theorem C03_seeded_fit_keeps_global_rng : forall s o, rng_clean o = true -> g_rng (fst (step s o)) = g_rng s.
 Proof. exact clean_keeps_rng. Qed.
@@ -200,6 +213,30 @@ Theorem C03_no_shared_mutable_default :
   forallb mdefault_ok mutable_defaults = true.
 Proof. vm_compute. reflexivity. Qed.
 Print Assumptions C03_no_shared_mutable_default.
+
+(* no iteration order of a set reaches an ordered structure (feature lists, column orders, documents), except two
+   allow-listed sites that are order-free for a reason written next to the allow-list (Model/ReproFlow.v osite_ok) *)
+Definition C03_order_statement : Prop := forallb osite_ok order_sites = true.
+(* as coded it fails at one site, on the CalTRACK hourly path (known finding C03-K2, replayed by the harness: the same fit
+   in fresh single-threaded processes with PYTHONHASHSEED 0 and 1 gives different documents and predictions).  Frozen copy: *)
+Definition caltrack_predict_as_coded : osite :=
+  {| o_file := "opendsm/eemeter/models/hourly_caltrack/segmentation.py"; o_func := "CalTRACKSegmentModel.predict"; o_kind := "call";
+     o_text := "list(set(parameters.keys()).intersection(set(design_matrix_granular.ke" |}.
+Theorem C03_no_hash_order_reaches_an_ordered_structure_refuted :
+  osite_ok caltrack_predict_as_coded = false /\ osite_known caltrack_predict_as_coded = true.
+Proof. vm_compute. split; reflexivity. Qed.
+Print Assumptions C03_no_hash_order_reaches_an_ordered_structure_refuted.
+(* partial: every other site of the daily / billing / hourly / CalTRACK-hourly packages and the shared helpers *)
+Theorem C03_no_hash_order_reaches_an_ordered_structure_partial :
+  forallb (fun o => osite_ok o || osite_known o) order_sites = true.
+Proof. vm_compute. reflexivity. Qed.
+Print Assumptions C03_no_hash_order_reaches_an_ordered_structure_partial.
+
+(* what the rule rejects: leftover feature columns appended in set order *)
+Example C03_set_order_into_feature_list_is_rejected :
+  osite_ok {| o_file := "opendsm/eemeter/models/hourly/model.py"; o_func := "HourlyModel._sort_features"; o_kind := "extend";
+              o_text := "sorted_cols.extend(set(feat).difference(sorted_cols))" |} = false.
+Proof. vm_compute. reflexivity. Qed.
 
 (* fitting writes no process-global state: in the scanned files there is no `global` statement, no assignment or mutation
    through an imported name (another module's attribute, a class attribute, another module's container), no mutation of
